@@ -574,6 +574,66 @@ func concurrent(b balancer, ncalls int) h.Scenario {
 	}}
 }
 
+// held: ncalls callers arrive together and every call stays in flight until all of them have been placed.
+// An atomic least-active balancer places each call on a server with the fewest calls in flight, so the
+// in-flight vector at that moment is balanced (largest and smallest count differ by at most one) - whatever
+// the interleaving of the callers.
+func held(b balancer, ncalls int) h.Scenario {
+	name := fmt.Sprintf("held/%s/calls=%d", b.name, ncalls)
+	return h.Scenario{Name: name, Quick: 2, Thorough: 3, Run: func(ch vs.Chooser, trace bool) (*vs.Sched, h.Outcome) {
+		var o h.Outcome
+		placed := make([]int, ncalls)
+		s := vs.Run(ch, vs.Config{Trace: trace}, func() {
+			var client *core.Client
+			if b.weights == nil {
+				client = core.NewClient(urlsFor(b.n)...)
+			} else {
+				client = core.NewClient()
+			}
+			hd, _, _ := b.make()
+			var all, wg vs.WaitGroup
+			all.Add(ncalls)
+			for c := 0; c < ncalls; c++ {
+				c := c
+				wg.Add(1)
+				vs.GoFG(fmt.Sprintf("call%d", c), func() {
+					defer wg.Done()
+					placed[c] = -2
+					hd(newCtx(client), []byte("r"), func(ctx context.Context, req []byte) ([]byte, error) {
+						placed[c] = indexOf(core.GetClientContext(ctx).URL.String())
+						all.Done()
+						all.Wait() // in flight until every caller has been placed
+						return []byte("ok"), nil
+					})
+				})
+			}
+			wg.Wait()
+		})
+		o.Key = fmt.Sprint(placed)
+		if len(s.Hangs) == 0 && !s.Pruned && s.Aborted == "" {
+			counts := make([]int, b.n)
+			for _, x := range placed {
+				if x >= 0 && x < b.n {
+					counts[x]++
+				}
+			}
+			lo, hi := counts[0], counts[0]
+			for _, c := range counts {
+				if c < lo {
+					lo = c
+				}
+				if c > hi {
+					hi = c
+				}
+			}
+			if hi-lo > 1 {
+				o.Viol = append(o.Viol, h.V{Sig: b.name + "|concurrent|not-least-active", What: fmt.Sprintf("%s: %d callers arriving together, all held in flight, were placed %v (calls per server %v): a call went to a server that had more in flight than another", name, ncalls, placed, counts)})
+			}
+		}
+		return s, o
+	}}
+}
+
 func main() {
 	var scen []h.Scenario
 	depth := 5
@@ -594,6 +654,11 @@ func main() {
 			c = concurrent(b, 4)
 		}
 		scen = append(scen, c)
+	}
+	for _, b := range balancers([]int{1, 1}) {
+		if b.name == "leastactive" || b.name == "weightedleastactive" {
+			scen = append(scen, held(b, 2), held(b, 3))
+		}
 	}
 	h.Main(ID, scen, nil, h.SeqPart{Name: "cycles", Shards: 32, Run: cycles})
 }
